@@ -329,6 +329,13 @@ func scenC20(w *vsim.World, spec *vsim.Spec) {
 		sort.Strings(asked)
 		be.calls++
 		totalCalls++
+		// termination: every call either returns a requested object not seen before or is the
+		// last one to its cluster, so |U| + (number of clusters) calls suffice; twice that is
+		// the budget. More means the controller keeps asking without getting anywhere.
+		if budget := 2*(len(U)+len(clusters)) + 2; totalCalls > budget {
+			w.Violation("c20/looping", "backend call %d for one list request naming %d distinct UUIDs on %d clusters (budget %d); injected fault: %s", totalCalls, len(U), len(involved), budget, faultFired)
+			return nil
+		}
 		w.Logf("wire #%d list call %d at %s (call %d of the run): %d uuids asked, count=%q limit=%q select=%q", r.Seq, be.calls, cl, totalCalls, len(asked), p.Get("count"), p.Get("limit"), p.Get("select"))
 		var sel []string
 		if s := p.Get("select"); s != "" {
